@@ -1397,6 +1397,17 @@ func (e *Engine) SoftKey(st *State, x ast.Expr) (string, bool) {
 
 func (e *Engine) assign(lhs, rhs []ast.Expr, tok token.Token, stmt ast.Stmt, in []*State) []*State {
 	out := e.assign1(lhs, rhs, tok, stmt, in)
+	if len(lhs) == 2 && len(rhs) == 1 {
+		if ix, ok := ast.Unparen(rhs[0]).(*ast.IndexExpr); ok {
+			if entries := e.P.constTable(ix.X); entries != nil {
+				var res []*State
+				for _, st := range out {
+					res = append(res, e.tableSplit(st, lhs, ix, entries)...)
+				}
+				out = compact(res)
+			}
+		}
+	}
 	if sp, ok := e.Client.(Splitter); ok {
 		var res []*State
 		for _, st := range out {
@@ -1609,6 +1620,45 @@ func (e *Engine) lenLowerBound(st *State, l, r ast.Expr) *int64 {
 		}
 	}
 	return nil
+}
+
+// tableSplit: `v, ok := table[k]` for a constant table (a package-level map that is never written): one state per
+// entry (k == key, v == value, ok) and one for the miss (k differs from every key, !ok), so that what follows knows
+// which row it is looking at - a dispatch through a table reads like the switch it replaces.
+func (e *Engine) tableSplit(st *State, lhs []ast.Expr, ix *ast.IndexExpr, entries []*ast.KeyValueExpr) []*State {
+	if constOf(e.Info, ix.Index) != nil {
+		return []*State{st}
+	}
+	if k := e.canon(st, ix.Index); !k.OK {
+		return []*State{st}
+	}
+	okID, _ := ast.Unparen(lhs[1]).(*ast.Ident)
+	vID, _ := ast.Unparen(lhs[0]).(*ast.Ident)
+	setOK := func(s *State, val bool) *State {
+		if s == nil || okID == nil || okID.Name == "_" {
+			return s
+		}
+		return e.assumeAtom(s, okID, val)
+	}
+	var out []*State
+	miss := st
+	for _, kv := range entries {
+		hit := e.assumeCompare(st, ix.Index, token.EQL, kv.Key, true)
+		hit = setOK(hit, true)
+		if hit != nil && vID != nil && vID.Name != "_" && constOf(e.Info, kv.Value) != nil {
+			hit = e.assumeCompare(hit, vID, token.EQL, kv.Value, true)
+		}
+		if hit != nil {
+			out = append(out, hit)
+		}
+		if miss != nil {
+			miss = e.assumeCompare(miss, ix.Index, token.EQL, kv.Key, false)
+		}
+	}
+	if miss = setOK(miss, false); miss != nil {
+		out = append(out, miss)
+	}
+	return out
 }
 
 // commaOK records the meaning of `v, ok := x.(T)`, `v, ok := m[k]`.
